@@ -240,8 +240,12 @@ void ezc3d::ParametersNS::Parameters::write(std::fstream &f) const
 
     // Write each groups
     std::streampos dataStartPosition(-1); // Special parameter in POINT group
-    for (size_t i=0; i < nbGroups(); ++i)
+    for (size_t i=0; i < nbGroups(); ++i){
+        // Unused group ids of the source file are kept as empty groups, they are not content
+        if (group(i).name().empty() && group(i).nbParameters() == 0)
+            continue;
         group(i).write(f, -static_cast<int>(i+1), dataStartPosition);
+    }
 
     // Move the cursor to a beginning of a block
     std::streampos actualPos(f.tellg());
